@@ -108,10 +108,12 @@ def check(R, F, P, cfg):
         val = fmt(a[1])
         if not ("CleaningAction" in val and "Option::Some" in val and "action" in val):
             probs.append("inserted value is %s" % val[:100])
-        if "cleaner_map" not in fmt(a[0]):
-            probs.append("inserted into %s, not into the Cleaner's own map" % fmt(a[0])[:100])
-        if "cleaner_map" not in fmt(S.args_of(dg[0])[0]):
-            probs.append("the Weak is a downgrade of %s" % fmt(S.args_of(dg[0])[0])[:80])
+        tgt = fmt(S.expand_rets(a[0]))          # a private accessor for the slot, if any, is looked through
+        src = fmt(S.expand_rets(S.args_of(dg[0])[0]))
+        if "self.cleaner_map" not in tgt:
+            probs.append("inserted into %s, not into the Cleaner's own map" % tgt[:100])
+        if "self.cleaner_map" not in src:
+            probs.append("the Weak is a downgrade of %s" % src[:80])
         bad_ret = []
         for p_ in tables.normal_paths(S, limit=20000):
             rv = p_.retval()
